@@ -437,8 +437,16 @@ func (c *Ctx) Floor(rule string, n int) {
 			k++
 		}
 	}
-	if k < n {
-		c.add(rule, "floor", Undecided, token.NoPos, false, fmt.Sprintf("rule matched %d instances, at least %d were confirmed by hand on the pinned tree", k, n))
+	// The floor guards against a matcher that silently stopped matching (a rule with no instance passes vacuously). It
+	// is NOT a count of sites that have to exist: merging duplicated sites (three copies of a block folded into one,
+	// two insert calls into one) is ordinary maintenance. Half of what was confirmed by hand, and at least one,
+	// separates the two cases.
+	need := (n + 1) / 2
+	if need < 1 {
+		need = 1
+	}
+	if k < need {
+		c.add(rule, "floor", Undecided, token.NoPos, false, fmt.Sprintf("rule matched %d instances; %d were confirmed by hand on the pinned tree and at least %d are expected", k, n, need))
 	}
 }
 
